@@ -164,3 +164,39 @@ def _check_fault_at(ex, cfg, agg):
             later = [e for e in ex.events[t_fault:] if e[0] in ('H5Fcreate', 'rename', 'remove')
                      and any(isinstance(a, SymStr) and envstubs.strid(a) in (envstubs.strid(f['name']), envstubs.strid(f['final_name'])) for a in e[1:3])]
             agg.note('files finalized before the fault are not touched afterwards', not later, None if not later else dict(sig='C10.touched', model=path_model(ex)))
+
+
+# ----------------------------------------------------------------------------- C11: a later session on a directory that already holds files
+
+def check_session(ex, cfg, status, ret, agg):
+    """valid calls on a channel whose directory may already contain finalized files (existence of every final name symbolic)"""
+    if status != 'ret':
+        agg.note('no C assert / abort / NULL dereference reachable when files of an earlier session exist', False, path_model(ex)); return
+    agg.note('no C assert / abort / NULL dereference reachable when files of an earlier session exist', True)
+    files, problems = build_files(ex)
+    calls = ex.user['calls']
+    data_files = [f for f in files if not f['is_props']]
+    E = envstubs.env(ex)
+    # 1. never create / rename onto a final name that exists
+    for f in data_files:
+        from .wpath import expected_names
+        tmpn, finn = expected_names(ex, cfg, f['window'])
+        acc = [e for e in ex.events[:f['ev']] if e[0] == 'access' and envstubs.strid(e[1]) == envstubs.strid(finn)]
+        ok = bool(acc) and (acc[-1][2] is False or (not isinstance(acc[-1][2], bool) and ex.valid(z3.Not(acc[-1][2]))))
+        agg.note('a data file is created only if its final name does not exist (a session never replaces a file finalized earlier)', ok,
+                 None if ok else dict(model=path_model(ex)))
+        if f['rename_ev'] is not None:
+            ok2 = envstubs.strid(f['final_name']) == envstubs.strid(finn)
+            agg.note('a tmp file is renamed only onto the final name that was seen absent before it was created', ok2, None if ok2 else path_model(ex))
+    # 2. a call that needs a file period whose final name exists is refused, without a fatal failure, and later periods stay writable
+    for i, c in enumerate(calls):
+        refused_exist = [e for e in ex.events[c['ev0']:c['ev1']] if e[0] == 'access' and (e[2] is True or (not isinstance(e[2], bool) and ex.valid(e[2])))
+                         and any('rf@' in p and 'tmp.' not in p for p in e[1].parts if isinstance(p, str))]
+        if refused_exist:
+            check_claim(ex, agg, 'a write that would need a file period finalized by an earlier session is rejected', c['ret'] != 0)
+            check_claim(ex, agg, 'such a refusal is not a fatal I/O failure: the writer remains usable for later periods (has_failure stays 0)', c['post']['has_failure'] == 0)
+            created = [e for e in ex.events[c['ev0']:c['ev1']] if e[0] in ('H5Fcreate', 'rename', 'remove') and
+                       any(isinstance(a, SymStr) and envstubs.strid(a) in (envstubs.strid(refused_exist[-1][1]),) for a in e[1:3])]
+            agg.note('the existing finalized file is neither created over, renamed over, nor removed', not created, None if not created else path_model(ex))
+        elif ex.valid(c['ret'] == 0) and i > 0 and not ex.valid(calls[i - 1]['ret'] == 0):
+            agg.note('after a refused period a call into a free later period is accepted', True)
